@@ -1,6 +1,7 @@
 package main
 
 import (
+	"bytes"
 	"encoding/hex"
 	"fmt"
 	"regexp"
@@ -79,6 +80,21 @@ func buildText(text string) (out map[string]interface{}, t route.Table) {
 		return map[string]interface{}{"error": loadErr(err)}, nil
 	}
 	return map[string]interface{}{"table": route.VerifDump(t, false)}, t
+}
+
+// parsedDefs: how many definitions the real route.Parse makes of a text it accepts (the observable of "the table
+// was built from the COMPLETE text": the driver compares it with the number of command lines it counts itself).
+func parsedDefs(text string) (n int, ok bool) {
+	defer func() {
+		if recover() != nil {
+			n, ok = 0, false
+		}
+	}()
+	defs, err := route.Parse(bytes.NewBufferString(text))
+	if err != nil {
+		return 0, false
+	}
+	return len(defs), true
 }
 
 // payload is a text that may not be valid UTF-8: it travels as "text" when it is, as "hex" otherwise.
